@@ -137,6 +137,7 @@ def run(ctx):
     viol, diffs = [], []
     evals = nontriv = 0
     samples = []
+    safe_count = {}
     base_table = list((ctx.generated or {}).get("table_wire", []))
     for i in range(ndefs):
         name = "cmd" + "".join(r.choice("abcdefgh") for _ in range(4)) + str(i)
@@ -160,12 +161,15 @@ def run(ctx):
                 if need or d2["extension"]:
                     cases.append((b" ".join(toks) + b";" if d2["kind"] == "action" else b"if " + b" ".join(toks) + b" {stop;}", "norequire", toks, None, None))
             texts = [c[0] for c in cases]
-            lines = ["table-add " + wire]
+            lines = ["table-add " + wire, "table-safe"]
             for t in texts:
                 lines += ["parse " + hx(t), "wf " + hx(t), "ser " + hx(t)]
             ans = run_driver(lines)
             if ans[0] != "ok":
                 raise RuntimeError("driver refused custom definition: " + ans[0])
+            # hypothesis of C20.custom_commands_keep_the_verdict (Safe.cmdSafe) evaluated on the extended table
+            safe_count[ans[1].split(" ")[0]] = safe_count.get(ans[1].split(" ")[0], 0) + 1
+            ans = ans[:1] + ans[2:]
             for k, (t, kind, toks, ea, ee) in enumerate(cases):
                 m_parse, m_wf, m_ser = ans[1 + 3 * k: 4 + 3 * k]
                 pr = Parser()
@@ -204,6 +208,7 @@ def run(ctx):
         p = Parser()
         if p.parse(b"zz" + name.encode() + b";") is not False or "unknown command" not in p.error:
             viol.append({"what": "unregistered name accepted after registration of %r" % name, "input": "zz" + name})
+    ctx.notes.append("generated custom definitions meeting the theorem's hypothesis cmdSafe (table-safe on the extended table): %r" % safe_count)
     fresh, known = split_known("C20", viol, lambda f, v: False)
     return {"evaluations": evals, "distinct_nontrivial": nontriv, "rule": RULE, "samples": samples,
             "suites": {"custom": {"definitions": ndefs}}, "diffs": diffs, "violations": fresh, "known": known}
